@@ -896,7 +896,16 @@ func docnumGuarded(p *Program, cs ssa.CallInstruction, prm *ssa.Parameter, depth
 func r19DocNum(c *RuleCtx) {
 	p := c.p
 	// functions that index the stored-offset table by a document number
+	// (the two of the pinned tree by name, and any other function that computes storedIndexOffset + 8*n
+	// from one of its parameters)
 	indexers := map[string]bool{"getDocStoredMetaAndCompressed": true, "getDocStoredOffsets": true}
+	indexParam := map[*ssa.Function]int{}
+	for _, fn := range p.ZapFuncs {
+		if i := storedIndexParam(fn); i >= 0 {
+			indexers[fn.Name()] = true
+			indexParam[fn] = i
+		}
+	}
 	n := 0
 	for _, fn := range p.ZapFuncs {
 		if indexers[fn.Name()] || namedFn(fn, "SegmentBase.copyStoredDocs") {
@@ -909,6 +918,9 @@ func r19DocNum(c *RuleCtx) {
 			}
 			args := cs.Common().Args
 			num := args[len(args)-1]
+			if i, ok := indexParam[callee]; ok && i < len(args) {
+				num = args[i]
+			}
 			prm, ok := root(num).(*ssa.Parameter)
 			if !ok {
 				continue
@@ -919,6 +931,64 @@ func r19DocNum(c *RuleCtx) {
 		}
 	}
 	c.check(n >= 2, "docnum-guard/sites", "-", "stored-table accesses by a caller-supplied document number are found (confirmed by hand: visitStoredFields, DocID)", fmt.Sprintf("found %d", n))
+}
+
+// storedIndexParam: the parameter of fn from which it computes a position in the stored-document index
+// (SegmentBase.storedIndexOffset + 8*n), or -1.
+func storedIndexParam(fn *ssa.Function) int {
+	if len(fn.Blocks) == 0 {
+		return -1
+	}
+	fromParam := func(v ssa.Value) int {
+		for d := 0; d < 4; d++ {
+			switch x := v.(type) {
+			case *ssa.Parameter:
+				for i, q := range fn.Params {
+					if q == x {
+						return i
+					}
+				}
+				return -1
+			case *ssa.Convert:
+				v = x.X
+			case *ssa.BinOp:
+				if _, ok := x.Y.(*ssa.Const); ok {
+					v = x.X
+				} else if _, ok := x.X.(*ssa.Const); ok {
+					v = x.Y
+				} else {
+					return -1
+				}
+			default:
+				return -1
+			}
+		}
+		return -1
+	}
+	res := -1
+	eachInstr(fn, func(_ *ssa.BasicBlock, in ssa.Instruction) {
+		bo, ok := in.(*ssa.BinOp)
+		if !ok || bo.Op != token.ADD || res >= 0 {
+			return
+		}
+		for _, pr := range [][2]ssa.Value{{bo.X, bo.Y}, {bo.Y, bo.X}} {
+			if sn, fld, _, ok := loadedField(pr[0]); !ok || sn != "SegmentBase" || fld != "storedIndexOffset" {
+				continue
+			}
+			mul, ok := pr[1].(*ssa.BinOp)
+			if !ok || mul.Op != token.MUL {
+				continue
+			}
+			for _, q := range [][2]ssa.Value{{mul.X, mul.Y}, {mul.Y, mul.X}} {
+				if k, ok := constUint64(q[0]); ok && k == 8 {
+					if i := fromParam(q[1]); i >= 0 {
+						res = i
+					}
+				}
+			}
+		}
+	})
+	return res
 }
 
 // ---------------------------------------------------------------------------
@@ -959,6 +1029,9 @@ func helperDropsReaders(f *ssa.Function) bool {
 	}
 	eachInstr(f, func(_ *ssa.BasicBlock, in ssa.Instruction) {
 		if u, ok := in.(*ssa.UnOp); ok && isLoadOfField(u, "docVisitState", "dvrs") {
+			if readersUseIsBenign(u) {
+				return // taken out to be parked / re-initialised, not read through
+			}
 			for _, ev := range pa.statesBefore(u) {
 				if ev&1 == 0 {
 					okc = false // the old readers are looked at before they are dropped
@@ -1010,6 +1083,11 @@ func readersUseIsBenign(u ssa.Value) bool {
 				}
 				f := cc.StaticCallee()
 				if f != nil && f.Name() == "cloneInto" && len(cc.Args) == 2 && cc.Args[1] == v && cc.Args[0] != v {
+					continue
+				}
+				// a method of the reader that overwrites every one of its fields (`dvr.release()`) reads
+				// nothing out of it either
+				if f != nil && len(cc.Args) == 1 && cc.Args[0] == v && fullResetMethod(f) {
 					continue
 				}
 				return false
@@ -1521,6 +1599,12 @@ func ruleR4() *Rule {
 					if lk, ok := x.Tuple.(*ssa.Lookup); ok {
 						return isDvrs(lk.X, 0)
 					}
+					// the value of a range over the state's readers
+					if nx, ok := x.Tuple.(*ssa.Next); ok {
+						if rg, ok := nx.Iter.(*ssa.Range); ok {
+							return isDvrs(rg.X, 0)
+						}
+					}
 				case *ssa.Lookup:
 					return isDvrs(x.X, 0)
 				case *ssa.UnOp:
@@ -1554,6 +1638,21 @@ func ruleR4() *Rule {
 					rv := cs.Common().Args[0]
 					if isMethodOfReader && root(rv) == ssa.Value(fn.Params[0]) {
 						continue // a mutating method calling another on its own receiver
+					}
+					// the same from inside a closure of such a method (`defer func() { if err != nil { di.unloadChunk() } }()`)
+					if par := rootParent(fn); par != fn && par.Signature.Recv() != nil && isNamed(par.Signature.Recv().Type(), zapPkgPath, "docValueReader") {
+						if root(rv) == ssa.Value(par.Params[0]) {
+							continue // (the captured variable resolved to the method's receiver)
+						}
+						if fv, ok := root(rv).(*ssa.FreeVar); ok && capturedValueIs(fn, fv, par.Params[0]) {
+							continue
+						}
+						// the receiver spilled into a variable that the closure captures by reference
+						if u, ok := root(rv).(*ssa.UnOp); ok && u.Op == token.MUL {
+							if fv, ok := u.X.(*ssa.FreeVar); ok && capturedCellHolds(fn, fv, par.Params[0]) {
+								continue
+							}
+						}
 					}
 					n++
 					c.check(okRecv(rv, 0), fmt.Sprintf("receiver/%s->%s", funcShortName(fn), callee.Name()), c.pos(cs),
@@ -1808,4 +1907,68 @@ func ruleR3() *Rule {
 			c.check(len(writers) >= 10, "write/sites", "-", "writes to fields of SegmentBase/Segment are found (confirmed by hand: about 30)", fmt.Sprintf("found %d", len(writers)))
 		},
 	}
+}
+
+// capturedValueIs: the free variable fv of closure cl is bound, at every MakeClosure of cl, to v.
+func capturedValueIs(cl *ssa.Function, fv *ssa.FreeVar, v ssa.Value) bool {
+	idx := -1
+	for i, f := range cl.FreeVars {
+		if f == fv {
+			idx = i
+		}
+	}
+	par := cl.Parent()
+	if idx < 0 || par == nil {
+		return false
+	}
+	n := 0
+	okAll := true
+	eachInstr(par, func(_ *ssa.BasicBlock, in ssa.Instruction) {
+		mc, ok := in.(*ssa.MakeClosure)
+		if !ok || mc.Fn != ssa.Value(cl) {
+			return
+		}
+		n++
+		if idx >= len(mc.Bindings) || root(mc.Bindings[idx]) != v {
+			okAll = false
+		}
+	})
+	return n > 0 && okAll
+}
+
+// capturedCellHolds: fv is bound to a local variable of the parent whose only store is v.
+func capturedCellHolds(cl *ssa.Function, fv *ssa.FreeVar, v ssa.Value) bool {
+	idx := -1
+	for i, f := range cl.FreeVars {
+		if f == fv {
+			idx = i
+		}
+	}
+	par := cl.Parent()
+	if idx < 0 || par == nil {
+		return false
+	}
+	n := 0
+	okAll := true
+	eachInstr(par, func(_ *ssa.BasicBlock, in ssa.Instruction) {
+		mc, ok := in.(*ssa.MakeClosure)
+		if !ok || mc.Fn != ssa.Value(cl) {
+			return
+		}
+		n++
+		if idx >= len(mc.Bindings) {
+			okAll = false
+			return
+		}
+		al, ok := mc.Bindings[idx].(*ssa.Alloc)
+		if !ok {
+			okAll = false
+			return
+		}
+		st := cellStores(al)
+		if len(st) != 1 || st[0].Val != v {
+			okAll = false
+		}
+	})
+	return n > 0 && okAll
 }
